@@ -120,7 +120,8 @@ static void hierarchy(int trace){ int depth=1+(int)(rnd()%3); struct lvl *L=call
 // ---- retargeting a busy queue (the change of target is deferred behind the running item) and dropping the new target at once:
 // the new target must stay alive from the moment dispatch_set_target_queue returns until the retargeted queue is gone
 struct rt { _Atomic int fins; _Atomic long stamp; _Atomic long released; };
-static void rt_fin(void *c){ struct rt *r=c; if(atomic_fetch_add(&r->fins,1)) fail("a retarget scenario finalizer ran twice",0,0,0); atomic_store(&r->stamp,stamp()); }
+static void rt_fin(void *c){ struct rt *r=c; long st=stamp(); if(!atomic_load(&r->stamp)) atomic_store(&r->stamp,st);      // stamped first, announced last: the main thread compares the stamps as soon as both counts are set
+  if(atomic_fetch_add(&r->fins,1)) fail("a retarget scenario finalizer ran twice",0,0,0); }
 static void retarget_round(int trace){ struct rt *RQ=calloc(1,sizeof *RQ), *RT=calloc(1,sizeof *RT);
   dispatch_queue_t q=dispatch_queue_create("rq", rnd()%2?DISPATCH_QUEUE_SERIAL:DISPATCH_QUEUE_CONCURRENT); dispatch_set_context(q,RQ); dispatch_set_finalizer_f(q,rt_fin);
   dispatch_queue_t tq=dispatch_queue_create("rt", NULL); dispatch_set_context(tq,RT); dispatch_set_finalizer_f(tq,rt_fin);
